@@ -107,6 +107,8 @@ def run_case(h, args, twin):
         r = "ENV: " + str(e)
     except (Exception, SystemExit) as e:
         r = "EXC: %s: %s @ %s" % (type(e).__name__, _short(e), _where(e))
+    if isinstance(r, str) and r == "SKIP":
+        return True  # outside the harness precondition (computed in the body)
     if r is None:
         STATS["reached"] += 1
         if len(STATS["sample_paths"]) < 3:
